@@ -29,7 +29,9 @@ BAD_SUFFIX = ("_x", "_y")
 
 
 def extract(run):
-    return []
+    from harness import extract as X
+
+    return X.generate("C13")
 
 
 def request_variants(rng, full):
